@@ -4,7 +4,10 @@ package c13
 // negation shape, every call; every function x argument-source pairing of the pipe family;
 // every error kind x function. Used as a deterministic generator next to the random search.
 
-import "sort"
+import (
+	"sort"
+	"strings"
+)
 
 func p(s string) Expr  { return Expr{K: "path", V: s} }
 func li(s string) Expr { return Expr{K: "int", V: s} }
@@ -139,6 +142,37 @@ func (g *gen) enumerate() []Case {
 		for _, l := range [][]string{intPaths, stringPaths, floatPaths} {
 			for _, x := range l {
 				out = append(out, g.negCase(env, x))
+			}
+		}
+	}
+
+	// ---- literal spellings into untyped parameters: 2.0 / 10.0 / 1e3 / 0.0 / -3.0 are float64,
+	// 7 is int, in every position (direct call, call under an operator, pipe argument)
+	for env := 0; env < nEnvs; env++ {
+		for _, l := range append(append([]string{}, wholeFloatLits...), "0.5", "7", "-3") {
+			lit := Expr{K: "float", V: l}
+			if !strings.ContainsAny(l, ".e") {
+				lit.K = "int"
+			}
+			want, _ := eval(call("typ", lit), envOf(env))
+			addE(env, call("typ", lit))
+			addE(env, bin("==", call("typ", lit), ls(want.(string), "s")))
+			addE(env, call("kinds", lit, p("a")))
+			addE(env, call("kinds", p("f"), lit))
+			addE(env, bin("==", call("kinds", lit, lit), ls(want.(string)+","+want.(string), "d")))
+			addE(env, call("divide", li("7"), lit))
+			addE(env, call("divide", p("a"), lit))
+			addE(env, bin("+", call("divide", lit, li("2")), ls("x", "d")))
+			addE(env, call("sg_a", lit))
+			addE(env, call("sgC_s_va", p("s"), lit, li("2"), lit))
+			for _, st := range [][]Stage{
+				{{F: "kinds", A: []Arg{{K: lit.K, V: l}}}}, {{F: "divide", A: []Arg{{K: lit.K, V: l}}}}, {{F: "show", A: []Arg{{K: lit.K, V: l}}}, {F: "upper"}},
+				{{F: "add", A: []Arg{{K: "int", V: "1"}}}, {F: "kinds", A: []Arg{{K: lit.K, V: l}}}}, {{F: "sg_a_va", A: []Arg{{K: lit.K, V: l}, {K: "int", V: "3"}}}},
+			} {
+				c := Case{Fam: "pipe", Env: env, Init: "a", Stages: st}
+				if v, cst, err := evalPipe(c, envOf(env)); cst == convOK && err == nil {
+					out = append(out, pipeCase(env, "a", st, v))
+				}
 			}
 		}
 	}
@@ -325,9 +359,13 @@ func (g *gen) enumerate() []Case {
 		if callForm {
 			// the same failing call under a leading negation, under !( … ), and as the right
 			// operand of || / && after a leading !x: every position must still fail
-			for i, w := range errWraps {
+			for i, w := range append(append([]string{}, errWraps...), "inner", "innerop", "pipein") {
 				wc := c
 				wc.Wrap, wc.WrapX = wrapFor(env, w, len(out)+i)
+				wc = g.finishErrForm(wc, len(out)+i)
+				if wc.Wrap == "" && len(wc.Stages) == 1 {
+					continue // the form lies in the region of an open finding
+				}
 				wc.Pos = g.wrapPositions(wc)
 				if len(wc.Pos) > 0 {
 					out = append(out, wc)
@@ -413,6 +451,29 @@ func (g *gen) enumerate() []Case {
 		addErr("conversion", "add", "a", []Arg{{K: "str", V: "abc", Q: "d"}}, form)
 		addErr("returned", "safe", "bad", nil, form)
 		addErr("returned", "failif", "a", []Arg{{K: "bool", V: "true"}}, form)
+	}
+	// two faults in one chain: the left-most failing function is the one the error names
+	firsts := []struct {
+		why, init string
+		st        Stage
+	}{
+		{"returned", "bad", Stage{F: "safe"}}, {"returned", "a", Stage{F: "failif", A: []Arg{{K: "bool", V: "true"}}}},
+		{"arity", "s", Stage{F: "add"}}, {"arity", "s", Stage{F: "greet", A: []Arg{{K: "str", V: "x", Q: "d"}}}}, {"arity", "a", Stage{F: "add", A: []Arg{{K: "int", V: "1"}, {K: "int", V: "2"}}}},
+		{"conversion", "ss", Stage{F: "add", A: []Arg{{K: "int", V: "1"}}}}, {"conversion", "xs", Stage{F: "isBig"}}, {"conversion", "hx", Stage{F: "dbl64"}},
+		{"unknown", "s", Stage{F: "nosuch"}}, {"unknown", "a", Stage{F: "zzFilter", A: []Arg{{K: "int", V: "1"}}}},
+	}
+	for i, f := range firsts {
+		for k := 0; k < 8; k++ {
+			second := secondFault(f.st.F, k)
+			if second.F == f.st.F {
+				continue
+			}
+			for _, mid := range [][]Stage{nil, {{F: "upper"}}} {
+				c := Case{Fam: "err", Env: (i + k) % nEnvs, Why: f.why, ErrFn: f.st.F, Init: f.init, Pos: pipePos}
+				c.Stages = append(append([]Stage{f.st}, mid...), second)
+				out = append(out, c)
+			}
+		}
 	}
 	addErr("returned", "safe", "bad", nil, false, Stage{F: "lower"})
 	addErr("unknown", "nosuch", "s", nil, false, Stage{F: "upper"}, Stage{F: "lower"})
